@@ -7,7 +7,7 @@
   All theorems start from the *parsed* numbers of a definition (`strtol`/`strtod` on the
   tag items are tied to the code by the correspondence check only).
 -/
-import Ctrmml.Proofs.MdsData
+import Ctrmml.Proofs.MdsPitch
 namespace Ctrmml.MdsData
 open Ctrmml.MdsSpec
 
@@ -48,7 +48,7 @@ the concatenation of one block per written value — merging equal neighbouring 
 15-frame cap per byte, marks in between and the end/loop command do not add, drop or change a
 frame — and every block has the slide shape (so the total number of frames is the sum of the
 written lengths). -/
-theorem C11_psg_frames_partial {α} (A : Arith α) (hA : SlideOK A) (items : List PsgItem)
+theorem C11_psg_frames {α} (A : Arith α) (hA : SlideOK A) (items : List PsgItem)
     (hok : itemsOk items false = true) :
     ∃ e, expandPsg (psgFinish (items.foldl (psgItem A) {})) = some e ∧
       e.frames = items.flatMap (itemFrames A) ∧
@@ -90,31 +90,200 @@ example : itemsOk [.value 15 15 1, .loop, .value 15 15 1, .value 15 10 6, .susta
 example : expandPsg (psgFinish ([PsgItem.value 15 15 1, .loop, .value 15 15 1, .value 10 10 1].foldl (psgItem Arith.rat) {}))
     = some { frames := [15, 15, 10], sustains := [], loopTo := some 1 } := by decide
 
-/-- The full statement (not proved): additionally the sustain and loop marks sit at the written
-frame positions (`psgMeets` checks frames, shapes and marks). Missing from the theorem above:
-the mark positions; they are checked by `expandPsg`/`psgMeets` on the real bytes of every
-generated definition (judge), including all D20-shaped inputs. -/
+/-- PSG marks — with `C11_psg_frames` the full PSG clause modulo `SlideOK`: when the written
+size (frames + sustain marks, an upper bound of the number of bytes) is below 256, the frame
+index at which the independent reader sees each sustain mark, and the frame index its loop
+command jumps to, equal the number of frames written before the mark (`refSus`/`refLoop` count
+frames with the written lengths; the last `|` wins), and the whole expansion passes the spec
+check `psgMeets` (frames split by written lengths, every block of slide shape, marks at the
+written places).  This is what the former defect D20 violated.
+The size hypothesis is needed: the loop position is emitted as ONE byte without a range check,
+so a loop mark behind more than 255 bytes wraps (`@1 psg (15 14)x130 | 3 2` loops to byte 4) —
+known finding `psg:index-overflow`. -/
+theorem C11_psg_marks {α} (A : Arith α) (hA : SlideOK A) (items : List PsgItem)
+    (hok : itemsOk items false = true) (hfit : psgSize items < 256) :
+    ∃ e, expandPsg (psgFinish (items.foldl (psgItem A) {})) = some e ∧
+      e.frames = items.flatMap (itemFrames A) ∧
+      e.sustains = refSus items 0 ∧ e.loopTo = refLoop items 0 none ∧
+      psgMeets items e = true :=
+  psg_full_aux A hA items hok hfit
+
+example : itemsOk [.value 15 15 1, .loop, .value 15 15 1, .value 15 10 6, .sustain, .value 3 0 20] false = true ∧
+    psgSize [.value 15 15 1, .loop, .value 15 15 1, .value 15 10 6, .sustain, .value 3 0 20] < 256 ∧
+    refLoop [.value 15 15 1, .loop, .value 15 15 1, .value 15 10 6, .sustain, .value 3 0 20] 0 none = some 1 ∧
+    refSus [.value 15 15 1, .loop, .value 15 15 1, .value 15 10 6, .sustain, .value 3 0 20] 0 = [8] := by decide
+
+/-! ## pitch envelopes (every arithmetic `A`; no hypothesis on `A` is needed for these clauses)
+
+`PItem` = a parsed token (`pitchParse`); `nodeOf` = the iterations of `add_pitch_node` for one
+written node; `envChunks` = the iterations of the whole envelope + the loop index;
+`render` = their bytes (`pitchItems_chunks`: the model's token loop produces exactly
+`render (envChunks …)`). -/
+
+/-- one written node `initial>target:length`: its iterations last exactly the node length
+(`pitchLength`: the written length, or `lround(|Δ|+1.5) >> 4`, at least 1) in total, each 1..255
+frames, all but the last exactly 255 (the split the code makes), every field fits its format
+(8.8 start, 16-bit step; signed-byte step in the compact form), and the first iteration starts
+at the written pitch in 8.8 (`chunkStart A initial` = `(int16)(initial*256)` capped at 0x7eff). -/
+theorem C11_pitch_node {α} (A : Arith α) (ue ex : Bool) (i t : α) (e : Option Int) (cs : List RawChunk)
+    (h : nodeOf A ue ex i t e = some cs) (hp : 0 < pitchLength A i t e) :
+    (cs.map (·.len)).sum = pitchLength A i t e ∧ (∀ n, e = some n → 1 ≤ n → pitchLength A i t e = n) ∧
+      (∀ c ∈ cs, 1 ≤ c.len ∧ c.len ≤ 255) ∧ (∀ c ∈ cs.dropLast, c.len = 255) ∧
+      (∀ c ∈ cs, -32768 ≤ c.start ∧ c.start ≤ 32767 ∧ -32768 ≤ c.delta ∧ c.delta ≤ 32767 ∧
+        (ex = false → -128 ≤ c.delta ∧ c.delta ≤ 127)) ∧
+      (cs.head?.map (·.start)) = some (chunkStart A i) := by
+  obtain ⟨a, b, c, d, f⟩ := nodeOf_spec A ue ex i t e cs h
+  have hq : ∀ n, e = some n → 1 ≤ n → pitchLength A i t e = n := by
+    intro n hn h1
+    subst hn
+    simp only [pitchLength, Option.getD_some]
+    split <;> omega
+  exact ⟨by omega, hq, b, c, d, f hp⟩
+
+/-- the vibrato macro `Vbase:depth:rate` is a loop mark followed by the three nodes
+`base>top:rate`, `top>-top:2*rate`, `-top>base:rate` (top = depth/2 + base), each value
+rendered with `%f` and read back (`fmt6`). -/
+theorem C11_pitch_vibrato {α} (A : Arith α) (ue ex : Bool) (cs : List RawChunk) (lp : Int) (b d : α) (r : Int) :
+    pitchItem A ue ex (render ex cs, lp) (.vib b d r) =
+      pitchItems A ue ex [.loop, .node (A.fmt6 b) (A.fmt6 d) (some r), .node (A.fmt6 d) (A.fmt6 (A.neg d)) (some (r * 2)),
+        .node (A.fmt6 (A.neg d)) (A.fmt6 b) (some r)] (render ex cs, lp) := by
+  rw [pitchItems_chunks, pitchItem_chunks]
+  simp only [itemChunks, envChunks, isMark, Option.bind_some, List.append_nil, if_true, Bool.false_eq_true, if_false]
+  cases nodeOf A ue ex (A.fmt6 b) (A.fmt6 d) (some r) with
+  | none => simp
+  | some c1 =>
+    cases nodeOf A ue ex (A.fmt6 d) (A.fmt6 (A.neg d)) (some (r * 2)) with
+    | none => simp
+    | some c2 =>
+      cases nodeOf A ue ex (A.fmt6 (A.neg d)) (A.fmt6 b) (some r) with
+      | none => simp
+      | some c3 => simp [List.append_assoc]
+
+/-- compact form read back: when the envelope compiles in the compact form to iterations `cs`
+with loop index `lp` (fewer than 256 nodes), the independent reader `runPitchEnv` decodes
+the bytes `pitchFinish (render cs) lp` to exactly those iterations (start, signed-byte step,
+frames), the last node holding for ever when there is no loop mark, and the loop target is
+the index of the first iteration after the mark. -/
+theorem C11_pitch_decode_compact {α} (A : Arith α) (ue : Bool) (items : List (PItem α)) (cs : List RawChunk) (lp : Int)
+    (h : envChunks A ue false items [] (-1) = some (cs, lp)) (hn : cs.length < 256) (hne : cs ≠ []) :
+    (lp = -1 ∧ runPitchEnv false (pitchFinish (render false cs) lp) =
+        some { chunks := cs.dropLast.map (toChunk · none) ++
+                 (cs.getLast?.map fun c => { toChunk c none with frames := none }).toList, loopTo := none }) ∨
+    (∃ k : Nat, lp = k ∧ k ≤ cs.length ∧ runPitchEnv false (pitchFinish (render false cs) lp) =
+        some { chunks := cs.map (toChunk · none), loopTo := some k }) := by
+  obtain ⟨hok, hlp, _⟩ := envChunks_ok A ue false items [] (-1) cs lp h (by simp) (Or.inl rfl)
+  have hcr : ∀ c ∈ cs, CR c := fun c hc => by simpa [ChunkOK] using hok c hc
+  have hr : render false cs = cs.flatMap bytes4 := by simp [render, foldl_compact]
+  rcases hlp with rfl | ⟨h1, h2⟩
+  · left
+    refine ⟨rfl, ?_⟩
+    obtain ⟨init, c, rfl⟩ : ∃ init c, cs = init ++ [c] := ⟨cs.dropLast, cs.getLast hne, (List.dropLast_concat_getLast hne).symm⟩
+    rw [hr, compact_noloop init c hcr]
+    simp
+  · right
+    obtain ⟨k, rfl⟩ : ∃ k : Nat, lp = k := ⟨lp.toNat, by omega⟩
+    refine ⟨k, rfl, by omega, ?_⟩
+    rw [hr, compact_loop cs k (by omega) hcr]
+
+/-- extended form read back (used when some step does not fit a signed byte): 16-bit steps,
+every node continues at the next one, the last one at the loop node — or at itself, for ever,
+when there is no loop mark. -/
+theorem C11_pitch_decode_extended {α} (A : Arith α) (ue : Bool) (items : List (PItem α)) (cs : List RawChunk) (lp : Int)
+    (h : envChunks A ue true items [] (-1) = some (cs, lp)) (hn : cs.length < 256) (hne : cs ≠ []) :
+    (lp = -1 ∧ runPitchEnv true (pitchFinishExt (render true cs) lp) =
+        some { chunks := extChunks 0 cs.dropLast ++
+                 (cs.getLast?.map fun c => { toChunk c (some (cs.length - 1)) with frames := none }).toList, loopTo := none }) ∨
+    (∃ k : Nat, lp = k ∧ k ≤ cs.length ∧ runPitchEnv true (pitchFinishExt (render true cs) lp) =
+        some { chunks := extChunks 0 cs.dropLast ++ (cs.getLast?.map fun c => toChunk c (some k)).toList,
+               loopTo := some k }) := by
+  obtain ⟨hok, hlp, _⟩ := envChunks_ok A ue true items [] (-1) cs lp h (by simp) (Or.inl rfl)
+  have her : ∀ c ∈ cs, ER c := fun c hc => by simpa [ChunkOK] using hok c hc
+  have hr : render true cs = ext6 0 cs := by simp [render, foldl_ext cs [] 0 rfl]
+  obtain ⟨init, c, rfl⟩ : ∃ init c, cs = init ++ [c] := ⟨cs.dropLast, cs.getLast hne, (List.dropLast_concat_getLast hne).symm⟩
+  have hl : init.length + 1 < 256 := by simpa using hn
+  rcases hlp with rfl | ⟨h1, h2⟩
+  · left
+    refine ⟨rfl, ?_⟩
+    rw [hr, ext_noloop init c her hl]
+    simp
+  · right
+    obtain ⟨k, rfl⟩ : ∃ k : Nat, lp = k := ⟨lp.toNat, by omega⟩
+    have hk : k < 256 := by simp at h2; omega
+    refine ⟨k, rfl, by simp at h2 ⊢; omega, ?_⟩
+    rw [hr, ext_loop init c k hk her hl]
+    simp
+
+/-- which form: under `noextpitch` (`ue = false`) the compact form never fails — a step that
+does not fit is capped to a signed byte (`clamp8`); the extended form never fails; and when
+the compact form succeeds with extended pitch allowed, every step fits a signed byte and the
+iterations are exactly those of the extended form (it fails, by definition of `nodeChunks`, at
+the first iteration whose step `chunkDelta` is outside -128..127, and `addPitch` then compiles
+the extended form). -/
+theorem C11_pitch_form {α} (A : Arith α) (target : α) (fuel : Nat) (length : Int) (counter : α) :
+    (nodeChunks A false false target fuel length counter).isSome = true ∧
+    (nodeChunks A true true target fuel length counter).isSome = true ∧
+    (∀ cs, nodeChunks A true false target fuel length counter = some cs →
+        nodeChunks A true true target fuel length counter = some cs ∧ ∀ c ∈ cs, -128 ≤ c.delta ∧ c.delta ≤ 127) := by
+  refine ⟨?_, C11_pitch_ext_total A target fuel length counter, ?_⟩
+  · induction fuel generalizing length counter with
+    | zero => simp [nodeChunks]
+    | succ fuel ih =>
+      unfold nodeChunks
+      by_cases hl : length ≤ 0
+      · simp [hl]
+      · simp only [hl, if_false, Bool.not_false, Bool.false_and, Bool.and_false, Bool.true_and, Bool.false_eq_true, if_true]
+        simpa using ih _ _
+  · intro cs h
+    refine ⟨?_, fun c hc => (nodeChunks_range A true false target fuel length counter cs h c hc).2.2.2.2 rfl⟩
+    induction fuel generalizing length counter cs with
+    | zero => simpa [nodeChunks] using h
+    | succ fuel ih =>
+      unfold nodeChunks at h ⊢
+      by_cases hl : length ≤ 0
+      · simpa [hl] using h
+      · simp only [hl, if_false, Bool.not_false, Bool.not_true, Bool.true_and, Bool.false_and, Bool.false_eq_true,
+          if_true] at h ⊢
+        split at h
+        · cases h
+        · simp only [Option.map_eq_some_iff] at h
+          obtain ⟨cs', h1, rfl⟩ := h
+          simp [ih _ _ cs' h1]
+
+/-- a written pitch item (exact decimals, `Spec.PitchItem`) as the parsed item of the model -/
+def writtenItem {α} (A : Arith α) : PitchItem → PItem α
+  | .node i t l => .node (A.ofDec (decide (i.num < 0)) i.num.natAbs i.dec) (A.ofDec (decide (t.num < 0)) t.num.natAbs t.dec)
+      (l.map Int.ofNat)
+  | .loop => .loop
+
+/-- The full statement of the PSG and pitch clauses for the arithmetic the C++ runs (binary64),
+NOT proved as such.  What is proved instead: `C11_psg_frames` + `C11_psg_marks` give the PSG
+conjunct for every arithmetic with `SlideOK` and written size < 256; `C11_pitch_node`,
+`C11_pitch_vibrato`, `C11_pitch_decode_compact/_extended`, `C11_pitch_form` give the structural
+pitch clauses for every arithmetic.  Missing: `SlideOK Arith.float` (finite; checked exhaustively
+against the real code every thorough run), and for pitch the comparison of the model's
+`chunkStart`/`chunkDelta` in binary64 with the exact decimals (`pitchMeets`: start = ⌊256·initial⌋,
+error below one step per frame) — evaluated by the judge on the real bytes.  The statement is
+in fact FALSE at two known findings: a loop/next index above 255 wraps (`psg:index-overflow`,
+`pitch:index-overflow`), and a per-frame step outside int16 wraps (`pitch:step-overflow`). -/
 def C11_full_statement : Prop :=
-  ∀ {α} (A : Arith α), SlideOK A → ∀ items : List PsgItem, itemsOk items false = true →
-    ∃ e, expandPsg (psgFinish (items.foldl (psgItem A) {})) = some e ∧ psgMeets items e = true
+  (∀ items : List PsgItem, itemsOk items false = true →
+    ∃ e, expandPsg (psgFinish (items.foldl (psgItem Arith.float) {})) = some e ∧ psgMeets items e = true) ∧
+  (∀ (noext : Bool) (items : List PitchItem) (cs : List RawChunk) (lp : Int),
+    (envChunks Arith.float (!noext) false (items.map (writtenItem Arith.float)) [] (-1) = some (cs, lp) → cs ≠ [] →
+      ∃ e, runPitchEnv false (pitchFinish (render false cs) lp) = some e ∧ pitchMeets noext items e = true) ∧
+    (envChunks Arith.float (!noext) false (items.map (writtenItem Arith.float)) [] (-1) = none →
+      envChunks Arith.float (!noext) true (items.map (writtenItem Arith.float)) [] (-1) = some (cs, lp) → cs ≠ [] →
+      ∃ e, runPitchEnv true (pitchFinishExt (render true cs) lp) = some e ∧ pitchMeets noext items e = true))
 
-/-- `SlideOK` in exact arithmetic, small instances (the kernel evaluates the model's slide loop
-over `Q`): every slide between levels 0..3 of up to 6 frames has the slide shape.  For IEEE
-binary64 (what the C++ runs; 10301 of the 65280 slides differ from exact arithmetic in some
-intermediate frame, e.g. `0>1:7`) the shape of all 65280 slides is checked against the real
-code by the `psg-slide` family of the check. -/
+/-- `SlideOK` in exact arithmetic, by kernel evaluation of the model's own slide loop over `Q`:
+every slide between any two levels 0..15 of 1..10 frames has the slide shape (2560 of the
+65280 slides; longer ones cost too much kernel time — 1..31 did not finish in 280 s — and the
+general proof by reasoning about the loop was not done).  For IEEE binary64 (what the C++ runs;
+10301 of the 65280 slides differ from exact arithmetic in some intermediate frame, e.g.
+`0>1:7`, measured every thorough run and written to the evidence) the shape of all 65280
+slides is checked against the real code by the `psg-slide` family of the check. -/
 theorem C11_psg_slide_rat_partial :
-    ∀ i ∈ List.range 4, ∀ t ∈ List.range 4, ∀ n ∈ [1, 2, 3, 4, 5, 6],
-      slideShape i t n (slideOf Arith.rat i t n) = true := by decide
-
-/- Pitch envelopes — NOT proved (time): the statement the check evaluates with the independent
-reader `runPitchEnv` + `pitchMeets` on the real bytes of every generated envelope: the chunks of
-each written node start at the written pitch (8.8, truncated, capped at 0x7eff), last the
-written number of frames (split at 255; the final node of an envelope without loop holds for
-ever), end within one step per frame of the written target, the extended form is used exactly
-when some step does not fit a signed byte (never under `noextpitch`, where the step is capped),
-and the loop mark is the index of the written node.  Known exception: a per-frame step outside
-int16 (`-127>127:1`) is undefined behaviour in `add_pitch_node` (known finding). -/
--- (no Lean statement is given for the pitch clauses: the written-node → token rendering is not part of the model)
+    ∀ i ∈ List.range 16, ∀ t ∈ List.range 16, ∀ n ∈ List.range' 1 10,
+      slideShape i t n (slideOf Arith.rat i t n) = true := by decide +kernel
 
 end Ctrmml.MdsData
